@@ -254,7 +254,7 @@ fn hs_b<H: Copy + PartialEq, T: Copy + PartialEq, const N: usize>(h: H, vals: [T
 macro_rules! hs {
     ($a:ident, $b:ident, $h:ty, $t:ty, $n:expr, $hv:expr, $tv:expr) => {
         #[kani::proof]
-        #[kani::unwind(6)]
+        #[kani::unwind(70)]
         #[kani::stub(std::alloc::alloc, alloc_stub)]
         #[kani::stub(alloc::alloc::dealloc_nonnull, dealloc_stub)]
         fn $a() {
@@ -263,7 +263,7 @@ macro_rules! hs {
             kani::cover!(true, "end of harness reached");
         }
         #[kani::proof]
-        #[kani::unwind(6)]
+        #[kani::unwind(70)]
         #[kani::stub(std::alloc::alloc, alloc_stub)]
         #[kani::stub(alloc::alloc::dealloc_nonnull, dealloc_stub)]
         fn $b() {
